@@ -26,7 +26,8 @@ RULE = ('Hypothesis: messages of all 18 types x times (ints incl. negative and >
         '"line <n>"), and never raises. Non-trivial = non-default attributes / an invalid line followed by a valid one; '
         'distinct by text.'
         ' Later additions: text streams as list / tuple / iterator / file object, include_time=False, option words'
-        ' (skip_checks=1) as invalid, a MidiFile loaded by name then emptied in eval(repr()).')
+        ' (skip_checks=1) as invalid, a MidiFile loaded by name then emptied in eval(repr()); parse_string again after'
+        ' editing its first result; editing the result of dict() leaves the message alone.')
 ASSUMPTIONS = ['lexical liberties of int()/float() (1_0, +5, unicode digits) and skip_checks= inside text are not judged',
                'NaN and infinite times are excluded (the statement says finite)']
 
